@@ -125,9 +125,31 @@ class Runner:
                       for n, o, _ in self.metrics)
         for n, o, at_ctor in self.metrics:
             now = {p: getattr(o, p) for p in CTOR}
-            if pv_dict(now) != pv_dict(at_ctor):
+            if pv_dict(now) != pv_dict({p: at_ctor[p] for p in CTOR}):
                 self.violations.append(f"metric {n}: parameters changed after construction: {at_ctor} -> {now}")
+            fp = self.fingerprint(o)
+            if fp != at_ctor["__results__"]:
+                self.violations.append(f"metric {n}: a later configuration change altered its RESULTS (analysis / power "
+                                       f"analysis of fixed aggregates): {at_ctor['__results__']} -> {fp} under {c}")
         self.log.append(cs + "|" + ms)
+
+    def fingerprint(self, m):
+        """what the metric computes from FIXED aggregates: must depend on nothing but the object"""
+        A = self.tt.aggr.Aggregates
+        c = A(400, {"x": 2.0, "y": 4.0}, {"x": 1.5, "y": 2.0}, {("x", "y"): 0.3})
+        t = A(380, {"x": 2.2, "y": 4.1}, {"x": 1.7, "y": 1.9}, {("x", "y"): 0.4})
+        out = []
+        try:
+            out.append(tuple(round(float(v), 12) if v == v else "nan" for v in m.analyze({0: c, 1: t}, 0, 1)))
+        except Exception as ex:  # noqa: BLE001
+            out.append(type(ex).__name__)
+        for par in ("rel_effect_size", "power"):
+            try:
+                out.append(tuple((r.n_obs, round(float(r.power), 10), round(float(r.effect_size), 10))
+                                 for r in m.solve_power(c + t, par)))
+            except Exception as ex:  # noqa: BLE001
+                out.append(type(ex).__name__)
+        return tuple(out)
 
     def block(self, b):
         for st in b:
@@ -172,7 +194,7 @@ class Runner:
                 if pv(getattr(m, p)) != pv(want):
                     self.violations.append(f"metric built with {kv} under {before}: {p} = {getattr(m, p)!r}, "
                                            f"expected {want!r}")
-            self.metrics.append((st[2], m, {p: getattr(m, p) for p in CTOR}))
+            self.metrics.append((st[2], m, {**{p: getattr(m, p) for p in CTOR}, "__results__": self.fingerprint(m)}))
         elif st[0] == "mut":
             d = tt.get_config()
             before = tt.get_config()
